@@ -12,7 +12,7 @@ import typing
 import warnings
 
 from .. import classscope as cs
-from .. import e2e, schemagen
+from .. import e2e, fieldcover, schemagen
 from .. import typetrees as tt
 from ..common import REPO, Rng, hx, unhx
 from ..runner import Check, match_finding
@@ -785,7 +785,7 @@ def oracle_module(ck: Check, camp, inp: dict, code: str, kind: str, executable: 
 
     def binding_failure(mech: str, name: str, where: str, observed: str, seen: str, use: str, hider=None) -> None:
         c = dict(base, mechanism=mech, name=name, name_class=name_class(name, code), use=use, seen=seen,
-                 alias_pass=name.endswith("_aliased") or f"{name} as {name}_aliased" in code)
+                 alias_pass=name.endswith("_aliased") or f"{name} as {name}_aliased" in code, text_context=text_context(name, code))
         if hider:
             c["hider"] = hider
         failures.append((c, f"{observed} [{where}]"))
@@ -871,6 +871,13 @@ def oracle_module(ck: Check, camp, inp: dict, code: str, kind: str, executable: 
             reported.add(key)
             ck.fail(cls, dict(inp, code=code), observed)
     return False
+
+
+def text_context(name: str, code: str) -> str:
+    """how the unbound name is written (a finding may be about one spelling only)"""
+    if f"{name}[Annotated[" in code:
+        return "wraps_annotated"
+    return "plain"
 
 
 def opts_key(opts: dict) -> str:
@@ -1112,6 +1119,7 @@ def run(ck: Check) -> None:
     campaign_type_imports(ck, 800 if quick else 4000, thorough=not quick)
     campaign_e2e(ck, 520 if quick else 3000, 140 if quick else 800, 60 if quick else 300, 80 if quick else 800, 150 if quick else 1500)
     campaign_tie(ck)
+    fieldcover.campaign(ck, 600 if quick else 6000)
     ck.search_hooks.append(search_after_break)
     known_findings(ck)
     ck.notes["exceptions_not_name_binding"] = {
